@@ -6,10 +6,35 @@
    texts themselves need (which requests are outstanding, which run ids the collector has issued and
    revoked, which data was submitted under which run id).  The same function is evaluated on the
    implementation's observations (to find violations) and, in ProcInv*.v, on the model's outputs. *)
-From Coq Require Import NArith ZArith List Bool Lia.
+From Coq Require Import NArith ZArith List Bool Lia FMapPositive.
 From Verif Require Import Processor.
 Import ListNotations.
 Open Scope Z_scope.
+
+(* ------------------------------------------------------------------ multisets of units
+   The bookkeeping of units of data (category, tag) uses the standard library's binary tries
+   (FMapPositive), so that histories with many thousands of events can be judged: a multiset of units is a
+   map from the tag to the per-category counts. *)
+Definition zkey (z : Z) : positive := match z with Z0 => 1%positive | Zpos p => (p~0)%positive | Zneg p => (p~1)%positive end.
+Definition cmap := PositiveMap.t (list (N * nat)).
+Definition cempty : cmap := PositiveMap.empty _.
+Definition ccount (ct : N * Z) (m : cmap) : nat :=
+  match PositiveMap.find (zkey (snd ct)) m with
+  | Some l => match find (fun x => (fst x =? fst ct)%N) l with Some x => snd x | None => O end
+  | None => O
+  end.
+Definition cmem (ct : N * Z) (m : cmap) : bool := negb (Nat.eqb (ccount ct m) 0).
+Definition cadd (ct : N * Z) (m : cmap) : cmap :=
+  let k := zkey (snd ct) in
+  let l := match PositiveMap.find k m with Some l => l | None => [] end in
+  PositiveMap.add k ((fst ct, S (ccount ct m)) :: filter (fun x => negb (fst x =? fst ct)%N) l) m.
+Definition cadd_all (cts : list (N * Z)) (m : cmap) : cmap := fold_left (fun mm ct => cadd ct mm) cts m.
+(* the units offered: the list (to enumerate them) and an index from the tag to (run, category) *)
+Definition offidx := PositiveMap.t (list (Z * N)).
+Definition off_add (o : Z * N * Z) (ix : offidx) : offidx :=
+  let '(r, c, t) := o in
+  let k := zkey t in
+  PositiveMap.add k ((r, c) :: match PositiveMap.find k ix with Some l => l | None => [] end) ix.
 
 (* ------------------------------------------------------------------ observations *)
 Record oreq := {
@@ -32,9 +57,30 @@ Record ostep := {
 Definition state_code (st : astate) : N :=
   match st with SUnknown => 0 | SConnected => 1 | SDisconnected => 2 | SRestart => 3 | SInvalidLicense => 4 end%N.
 
-Fixpoint insertZ (x : Z) (l : list Z) : list Z :=
-  match l with [] => [x] | y :: r => if x <=? y then x :: l else y :: insertZ x r end.
-Definition sortZ (l : list Z) : list Z := fold_right insertZ [] l.
+(* merge sort (payloads of several thousand events are compared) *)
+Fixpoint mergeZ (a : list Z) : list Z -> list Z :=
+  match a with
+  | [] => fun b => b
+  | x :: a' => fix inner (b : list Z) : list Z :=
+                 match b with
+                 | [] => a
+                 | y :: b' => if x <=? y then x :: mergeZ a' b else y :: inner b'
+                 end
+  end.
+Fixpoint splitZ (l : list Z) : list Z * list Z :=
+  match l with
+  | x :: y :: r => let '(a, b) := splitZ r in (x :: a, y :: b)
+  | _ => (l, [])
+  end.
+Fixpoint msortZ (fuel : nat) (l : list Z) : list Z :=
+  match fuel with
+  | O => l
+  | S f => match l with
+           | [] | [_] => l
+           | _ => let '(a, b) := splitZ l in mergeZ (msortZ f a) (msortZ f b)
+           end
+  end.
+Definition sortZ (l : list Z) : list Z := msortZ (length l) l.
 
 Definition is_event_idx (c : N) : bool := (c =? 1)%N || (c =? 2)%N || (c =? 6)%N || (c =? 7)%N.   (* log payloads carry no counts *)
 
@@ -134,10 +180,10 @@ Record mst := {
   m_gens : list (Z * nat);                (* incarnations used so far per application key *)
   m_ahs : list mah;
   m_clock : Z;
-  m_offered : list (Z * N * Z);           (* run, cat, unit *)
-  m_acked : list (N * Z);
-  m_dead : list (N * Z);                  (* acknowledged, or failed beyond retry: must never be sent again *)
-  m_sent : list (N * Z);                  (* one entry per request a unit occurred in *)
+  m_offered : list (Z * N * Z) * offidx;  (* run, cat, unit *)
+  m_acked : cmap;
+  m_dead : cmap;                          (* acknowledged, or failed beyond retry: must never be sent again *)
+  m_sent : cmap;                          (* one entry per request a unit occurred in *)
   m_all_ok : bool;                        (* every collector answer so far was a success *)
   m_run_lost : bool;                      (* some run ended (restart, disconnect, inactivity) *)
   m_exotic : bool;                        (* a tick reached an app harvest of a removed application incarnation:
@@ -182,12 +228,14 @@ Definition w_exotic (m : mst) v := {| m_out := m_out m; m_atts := m_atts m; m_ru
 Definition w_viol (m : mst) v := {| m_out := m_out m; m_atts := m_atts m; m_runs := m_runs m; m_apps := m_apps m; m_gens := m_gens m; m_ahs := m_ahs m; m_clock := m_clock m; m_offered := m_offered m; m_acked := m_acked m; m_dead := m_dead m; m_sent := m_sent m; m_all_ok := m_all_ok m; m_run_lost := m_run_lost m; m_exotic := m_exotic m; m_viol := v |}.
 
 Definition viol (m : mst) (code : N) (i : nat) : mst :=
-  if is_c03 code && m_exotic m then m else w_viol m (m_viol m ++ [(code, i)]).
+  if is_c03 code && m_exotic m then m
+  else if existsb (fun v => (fst v =? code)%N && Nat.eqb (snd v) i) (m_viol m) then m   (* once per code and step *)
+  else w_viol m (m_viol m ++ [(code, i)]).
 Definition viol_if (b : bool) (m : mst) (code : N) (i : nat) : mst := if b then viol m code i else m.
 
 Definition m_init : mst :=
-  {| m_out := []; m_atts := []; m_runs := []; m_apps := []; m_gens := []; m_ahs := []; m_clock := 0; m_offered := [];
-     m_acked := []; m_dead := []; m_sent := []; m_all_ok := true; m_run_lost := false; m_exotic := false; m_viol := [] |}.
+  {| m_out := []; m_atts := []; m_runs := []; m_apps := []; m_gens := []; m_ahs := []; m_clock := 0; m_offered := ([], PositiveMap.empty _);
+     m_acked := cempty; m_dead := cempty; m_sent := cempty; m_all_ok := true; m_run_lost := false; m_exotic := false; m_viol := [] |}.
 
 Definition ct_eqb (a b : N * Z) : bool := (fst a =? fst b)%N && (snd a =? snd b).
 Definition mem_ct (x : N * Z) (l : list (N * Z)) : bool := existsb (ct_eqb x) l.
@@ -217,7 +265,10 @@ Definition units_of (q : oreq) : list (N * Z) :=
   if (o_kind q =? 2)%N then map (fun t => (o_cat q, unit_id (o_cat q) (o_run q) t)) (o_tags q) else [].
 
 Definition offered_under (m : mst) (r : Z) (c : N) (t : Z) : bool :=
-  existsb (fun o => let '(r', c', t') := o in (r' =? r) && (c' =? c)%N && (t' =? t)) (m_offered m).
+  match PositiveMap.find (zkey t) (snd (m_offered m)) with
+  | Some l => existsb (fun o => (fst o =? r) && (snd o =? c)%N) l
+  | None => false
+  end.
 
 (* bound on the number of requests that may carry one unit of data *)
 Definition attempt_bound (c : N) : nat := if (c =? 0)%N then 6 else if is_event_idx c || (c =? 8)%N then 11 else 1.
@@ -276,9 +327,9 @@ Definition note_request (i : nat) (m : mst) (q : oreq) : mst :=
       else m1 in
     fold_left (fun mm ct =>
                  let mm1 := viol_if (negb (offered_under mm (o_run q) (fst ct) (snd ct))) mm V_FOREIGN i in
-                 let mm2 := viol_if (mem_ct ct (m_dead mm1)) mm1 V_DEAD_RESENT i in
-                 let mm3 := w_sent mm2 (ct :: m_sent mm2) in
-                 viol_if (Nat.ltb (attempt_bound (fst ct)) (count_ct ct (m_sent mm3))) mm3 V_ATTEMPTS i)
+                 let mm2 := viol_if (cmem ct (m_dead mm1)) mm1 V_DEAD_RESENT i in
+                 let mm3 := w_sent mm2 (cadd ct (m_sent mm2)) in
+                 viol_if (Nat.ltb (attempt_bound (fst ct)) (ccount ct (m_sent mm3))) mm3 V_ATTEMPTS i)
               (units_of q) m1.
 
 (* outstanding requests are kept in the harness's canonical order: by step, then by category *)
@@ -351,11 +402,11 @@ Definition m_reply (i : nat) (m : mst) (n : nat) (oc : outcome) (obs : ostep) : 
       let m1 :=
         match oc with
         | OOk =>
-            let m1 := fold_left (fun mm ct => viol_if (mem_ct ct (m_acked mm)) mm V_DUP_ACK i) cts m0 in
-            w_dead (w_acked m1 (cts ++ m_acked m1)) (cts ++ m_dead m1)
+            let m1 := fold_left (fun mm ct => viol_if (cmem ct (m_acked mm)) mm V_DUP_ACK i) cts m0 in
+            w_dead (w_acked m1 (cadd_all cts (m_acked m1))) (cadd_all cts (m_dead m1))
         | OFail f =>
             let keep := retry_status f && retry_cat (o_cat q) && held in
-            let m1 := w_all_ok (if keep then m0 else w_dead m0 (cts ++ m_dead m0)) false in
+            let m1 := w_all_ok (if keep then m0 else w_dead m0 (cadd_all cts (m_dead m0))) false in
             if held then
               match f with
               | F410 => app_terminal (end_run m1 (o_run q)) (o_owner q) 1
@@ -379,7 +430,8 @@ Definition m_step (i : nat) (m : mst) (o : op) (obs : ostep) : mst :=
   | OTxn run t =>
       let r := Z.of_N run in
       let m1 := if run_held m r then
-                  let m1 := w_offered m (m_offered m ++ offered_of_txn run t) in
+                  let fresh := offered_of_txn run t in
+                  let m1 := w_offered m (fresh ++ fst (m_offered m), fold_left (fun ix o => off_add o ix) fresh (snd (m_offered m))) in
                   match find_run r (m_runs m1) with Some x => touch m1 (mr_owner x) | None => m1 end
                 else m in
       note_requests i m1 (os_reqs obs)
@@ -507,16 +559,16 @@ Definition m_step (i : nat) (m : mst) (o : op) (obs : ostep) : mst :=
       let finals := filter (fun q => (o_kind q =? 2)%N) (os_reqs obs) in
       let m2 := fold_left (note_request i) finals m1 in
       let all := concat (map units_of finals) in
-      let fix dup (l : list (N * Z)) : bool := match l with [] => false | x :: r => mem_ct x r || dup r end in
-      let m3 := viol_if (dup all) m2 V_FINAL_DUP i in
+      let dup := snd (fold_left (fun acc x => (cadd x (fst acc), snd acc || cmem x (fst acc))) all (cempty, false)) in
+      let m3 := viol_if dup m2 V_FINAL_DUP i in
       (* acknowledge the final requests the collector accepted *)
       fold_left (fun mm q =>
                    let c := match o_cat q with 0%N => CMetrics | 1%N => CCustom | 2%N => CErrEv | 3%N => CErrors | 4%N => CSlow
                                           | 5%N => CTraces | 6%N => CTxnEv | 7%N => CSpan | 8%N => CLog | _ => CPkgs end in
                    match outs (Z.to_N (o_run q)) c with
                    | OOk => let cts := units_of q in
-                            let mm1 := fold_left (fun m' ct => viol_if (mem_ct ct (m_acked m')) m' V_DUP_ACK i) cts mm in
-                            w_dead (w_acked mm1 (cts ++ m_acked mm1)) (cts ++ m_dead mm1)
+                            let mm1 := fold_left (fun m' ct => viol_if (cmem ct (m_acked m')) m' V_DUP_ACK i) cts mm in
+                            w_dead (w_acked mm1 (cadd_all cts (m_acked mm1))) (cadd_all cts (m_dead mm1))
                    | OFail _ => w_all_ok mm false
                    end) finals m3
   end.
@@ -533,9 +585,9 @@ Fixpoint m_run (i : nat) (m : mst) (ops : list op) (obs : list ostep) : mst :=
    still unanswered when the daemon exited.  Packages are excluded (already-reported ones are filtered by design). *)
 Definition lost_units (m : mst) (complete_cats : list N) : list (N * Z) :=
   concat (map (fun o => let '(r, c, t) := o in
-                        if existsb (N.eqb c) complete_cats && negb (mem_ct (c, t) (m_acked m))
+                        if existsb (N.eqb c) complete_cats && negb (cmem (c, t) (m_acked m))
                            && negb (existsb (fun q => mem_ct (c, t) (units_of q)) (m_out m)) then [(c, t)] else [])
-              (m_offered m)).
+              (fst (m_offered m))).
 
 Definition monitor (ops : list op) (obs : list ostep) (complete_cats : list N) : list (N * nat) :=
   let m := m_run 0 m_init ops obs in
